@@ -17,6 +17,7 @@ import (
 	"verif/lib/gen"
 	"verif/lib/h"
 	"verif/lib/mon"
+	"verif/lib/ref"
 )
 
 var (
@@ -533,6 +534,7 @@ func (k *cliCase) extract() {
 		starts, ends []int
 		valid        bool
 		cols         []int
+		strand       string // "", "+" or "-" (4th column of the line; "-": the extracted sequence is reverse-complemented)
 	}
 	feats := []feat{}
 	bad := r.Chance(0.35)
@@ -578,8 +580,14 @@ func (k *cliCase) extract() {
 			}
 			f.cols = append(f.cols, rangeList(ws, wl)...)
 		}
+		f.strand = r.PickStr([]string{"", "", "+", "-", "-"})
 		feats = append(feats, f)
-		lines = append(lines, strings.Join(itoas(f.starts), ",")+"\t"+strings.Join(itoas(f.ends), ",")+"\t"+f.name)
+		line := strings.Join(itoas(f.starts), ",") + "\t" + strings.Join(itoas(f.ends), ",") + "\t" + f.name
+		if f.strand != "" {
+			line += "\t" + f.strand
+			c.Count("cli-extract:strand" + f.strand)
+		}
+		lines = append(lines, line)
 	}
 	cf := filepath.Join(k.dir, "coords.txt")
 	os.WriteFile(cf, []byte(strings.Join(lines, "\n")+"\n"), 0644)
@@ -613,7 +621,19 @@ func (k *cliCase) extract() {
 		if len(f.starts) > 1 {
 			c.Count("cli-extract:several-blocks")
 		}
-		if !k.compareFile("extract", run, filepath.Join(od, f.name+".fa"), refSelect(t.Rows, f.cols)) {
+		want := refSelect(t.Rows, f.cols)
+		if f.strand == "-" {
+			ok := true
+			for i := range want {
+				rc, good := ref.RevComp(want[i].Seq)
+				ok = ok && good
+				want[i].Seq = rc
+			}
+			if !ok {
+				continue // a residue without complement: not decided here
+			}
+		}
+		if !k.compareFile("extract", run, filepath.Join(od, f.name+".fa"), want) {
 			return
 		}
 	}
